@@ -37,6 +37,9 @@ func c35Gen(rng *rand.Rand, tier string) []Case {
 		if rng.Intn(10) == 0 {
 			k = rng.Intn(12)
 		}
+		if rng.Intn(12) == 0 {
+			k = []int{254, 255, 255, 128, 127}[rng.Intn(5)] // the ends of the uint8 range
+		}
 		cnt := rng.Intn(9)
 		if rng.Intn(20) == 0 {
 			cnt = rng.Intn(30)
@@ -103,6 +106,9 @@ func c35Gen(rng *rand.Rand, tier string) []Case {
 			k := rng.Intn(4)
 			if rng.Intn(3) == 0 {
 				k = others + rng.Intn(2) // at the gate: members = others+1
+			}
+			if rng.Intn(6) == 0 {
+				k = []int{255, 255, 254, 128}[rng.Intn(4)] // relay factor at the end of its type: far more than the members known
 			}
 			if rng.Intn(2) == 0 {
 				ops = append(ops, fmt.Sprintf("respond %d", k))
@@ -297,8 +303,8 @@ func c35Exec(ops []string) []string {
 func init() {
 	register(&Prop{
 		ID: "C35",
-		Rule: "hook cases: kRandomMembers with the relay filter on random member lists (0–30 records, names from a pool incl. self, empty and duplicates, every status 0–4, ProtocolMax 0–7), relay factor 0–11; " +
-			"real-node cases: a node on a recording transport learns 0–6 members through the memberlist event delegate (alive, failed, leaving, left, old protocol), a query with relay factor 0–4 or exactly at the k+1 gate arrives and is answered (Respond) or acknowledged; the packets it sends are judged; " +
+		Rule: "hook cases: kRandomMembers with the relay filter on random member lists (0–30 records, names from a pool incl. self, empty and duplicates, every status 0–4, ProtocolMax 0–7), relay factor 0–11 and 127/128/254/255; " +
+			"real-node cases: a node on a recording transport learns 0–6 members through the memberlist event delegate (alive, failed, leaving, left, old protocol), a query with relay factor 0–4, exactly at the k+1 gate, or 128/254/255 (the ends of the uint8 range) arrives and is answered (Respond) or acknowledged; the packets it sends are judged; " +
 			"non-trivial = the list has an ineligible member and (hook) a duplicate name with k>0 / (real) ≥ 2 other members; distinct = distinct op sequence",
 		Gen:  c35Gen,
 		Exec: c35Exec,
